@@ -36,7 +36,7 @@
                                         model and the differential check cover those cases too) *)
 From Coq Require Import List String ZArith Permutation Sorting.Sorted.
 Import ListNotations.
-From BD.Hist Require Import GoMatch Model SModel Spec ProofsString ProofsRefine ProofsSpec ProofsTop ProofsC06 ProofsC06Ex.
+From BD.Hist Require Import GoMatch Model SModel Spec ProofsString ProofsRefine ProofsSpec ProofsTop ProofsC06 ProofsC06Ex ProofsNames.
 
 (* For every interleaving `es` of store operations and queries - asked by the operating process (who = None) or by any reader
    process j with its own cache (who = Some j) - every answer of the model of the store is the answer of the run map. *)
@@ -172,6 +172,18 @@ Example C06_fixed_update_during_run :
                                   AFind (Some (pl "req-aaaa-1" 3 10))]
   /\ sp_trace hist_init esD = ytrace loc dh sys_init esD.
 Proof. exact fixed_update_during_run. Qed.
+
+(* ---- the string premises hold for EVERY DAG base name of length <= 2 over {a b Z 0 2 space . _ - [ ] * ? backslash :} and every name of
+        length <= 3 over the hazardous part {a 2 . [ * ? backslash :}, and for every pair of distinct names of length <= 1 in one
+        universe (bounded exhaustive; the general statement for all names is not proved) ------------------------------------------------ *)
+Theorem C06_names_premises_bounded :
+  List.length (words 2) = 241 /\ List.length (hwords 3) = 585
+  /\ (forall w, In w (words 2) \/ In w (hwords 3) ->
+        names_okb locN dhx [dag_of w] daysN (univ [dag_of w] runsN) = true /\ closedb [dag_of w] (univ [dag_of w] runsN) = true)
+  /\ (forall w1 w2, In w1 (words 1) -> In w2 (words 1) -> w1 <> w2 ->
+        names_okb locN dhx [dag_of w1; dag_of w2] daysN (univ [dag_of w1; dag_of w2] runsN) = true).
+Proof. exact names_premises_bounded. Qed.
+Print Assumptions C06_names_premises_bounded.
 
 (* ---- premises that remain are needed ----------------------------------------------------------------------------------------------------- *)
 Theorem C06_same_ms_needs_premise :
